@@ -33,18 +33,27 @@ import contextlib, signal, threading, time
 class HardTimeout(BaseException):
     "raised by the alarm; BaseException so that `except Exception` in the code under test does not swallow it"
 
+class _Guard:
+    fired = False
+
 @contextlib.contextmanager
 def hard_timeout(seconds):
+    """yields a guard whose .fired tells whether the alarm went off -- the code under test may replace the HardTimeout
+    by an exception of its own (e.g. a context manager's __exit__ raising), so callers check .fired, not only the exception"""
+    g = _Guard()
     if threading.current_thread() is not threading.main_thread():
-        yield; return
+        yield g; return
     old_handler = signal.getsignal(signal.SIGALRM)
     outer = signal.getitimer(signal.ITIMER_REAL)[0]
-    def handler(sig, frm): raise HardTimeout()
+    def handler(sig, frm):
+        g.fired = True
+        raise HardTimeout()
     signal.signal(signal.SIGALRM, handler)
-    signal.setitimer(signal.ITIMER_REAL, min(seconds, outer) if outer else seconds)
+    # periodic: code under test that catches the first alarm (a retry loop, an __exit__ that raises) is interrupted again
+    signal.setitimer(signal.ITIMER_REAL, min(seconds, outer) if outer else seconds, 0.25)
     t0 = time.time()
     try:
-        yield
+        yield g
     finally:
         signal.setitimer(signal.ITIMER_REAL, 0)
         signal.signal(signal.SIGALRM, old_handler)
